@@ -16,7 +16,9 @@ import Pyro5.nameserver as NS
 import Pyro5.core as core
 from Pyro5.errors import NamingError
 
-NAMES = ["a", "A", "ab", "aB", "a_", "a%", "a%c", "axc", "abc", "Abc", "a.b", "a+", "^a", "a$", "é", "É", "test.alpha", "Test.beta", "", "Pyro.NameServer", "pre.x", "pre.y", "Pre.x"]
+NAMES = ["a", "A", "ab", "aB", "a_", "a%", "a%c", "axc", "abc", "Abc", "a.b", "a+", "^a", "a$", "é", "É", "test.alpha", "Test.beta", "", "Pyro.NameServer", "pre.x", "pre.y", "Pre.x",
+         # characters at the edges of the code space (non-BMP, U+FFFF, private use): sort orders / range scans of a back-end must not lose them
+         "pre.\uffff.tail", "pre.\U0001f600", "a\U00020000z", "a\uffff", "a\ue000b", "pre.\U0010ffff"]
 TAGS = ["t", "T", "u", "%", "_", "é", "x.y"]
 PREFIXES = ["a", "A", "a_", "a%", "ab", "test.", "Test.", "pre.", "", "é", "Pyro."]
 REGEXES = ["a.*", "A", r"a\.", "a%", ".*c$", "[", "^pre\\.", "é", ""]
@@ -142,6 +144,9 @@ DIRECTED = [
     [("register", "", "PYRO:o@h:1", False, None), ("lookup", ""), ("remove", "", None, None), ("count",), ("register", "", "PYRO:o@h:2", True, ["t"]), ("remove", "", None, None)],
     [("register", "a\x00b", "PYRO:o@h:1", False, None), ("register", "a\x00c", "PYRO:o@h:1", False, None), ("register", "ab", "PYRO:o@h:1", False, None),
      ("list", "a\x00", None), ("remove", None, "a\x00", None), ("list", "a", None)],
+    [("register", "svc.\uffff.tail", "PYRO:o@h:1", False, None), ("register", "svc.\U0001d400lpha", "PYRO:o@h:1", False, ["t"]), ("register", "svc.\U00020000", "PYRO:o@h:1", False, None),
+     ("register", "svc.plain", "PYRO:o@h:1", False, None), ("register", "svd", "PYRO:o@h:1", False, None), ("list", "svc.", None), ("list", "svc", None),
+     ("remove", None, "svc.", None), ("list", "sv", None), ("count",)],
 ]
 
 
